@@ -325,6 +325,9 @@ func demangleSingleFunction(fn *profile.Function, options []demangle.Option) {
 			}
 		}
 	}
+	if name == "" {
+		name = fn.SystemName
+	}
 	fn.Name = name
 }
 
